@@ -1,4 +1,6 @@
 import SspModel.Props.C15
+import SspModel.Props.C09
 #print axioms Model.C15.C15_holds
 #print axioms Bridge.gen_maxwellian
 #print axioms Bridge.gen_sigmoid
+#print axioms Model.C09.fallback_le_one_of_check
